@@ -210,6 +210,8 @@ pub enum Op {
     InvIf(Pred),
     Adv(u8),
     Sync,
+    /// create an iterator, advance the clock by n ticks, then consume it
+    IterAdv(u8),
 }
 
 impl Op {
@@ -224,6 +226,7 @@ impl Op {
             Op::InvIf(_) => "invalidate_entries_if",
             Op::Adv(_) => "advance",
             Op::Sync => "sync",
+            Op::IterAdv(_) => "iter-across-advance",
         }
     }
     pub fn text(&self) -> String {
@@ -240,6 +243,7 @@ impl Op {
             Op::InvIf(Pred::Never) => "invif(never)".into(),
             Op::Adv(n) => format!("adv({n})"),
             Op::Sync => "sync".into(),
+            Op::IterAdv(n) => format!("iteradv({n})"),
         }
     }
     pub fn parse(s: &str) -> Op {
@@ -272,6 +276,7 @@ impl Op {
             }
             "adv" => Op::Adv(n(0)),
             "sync" => Op::Sync,
+            "iteradv" => Op::IterAdv(n(0)),
             _ => panic!("bad op {s}"),
         }
     }
@@ -398,6 +403,13 @@ impl Sut {
                     Obs::Unit
                 }
                 Op::Sync => Obs::Unit,
+                Op::IterAdv(n) => {
+                    let it = c.iter();
+                    clock.advance(Duration::from_millis(n as u64 * cfg.tick_ms));
+                    let mut v: Vec<(u8, u32)> = it.map(|(k, v)| (k.k, v.id)).collect();
+                    v.sort();
+                    Obs::Items(v)
+                }
             },
             Sut::S { c, clock } => match op {
                 Op::Ins(k, w) => {
@@ -428,6 +440,13 @@ impl Sut {
                 Op::Sync => {
                     c.sync();
                     Obs::Unit
+                }
+                Op::IterAdv(n) => {
+                    let it = c.iter();
+                    clock.advance(Duration::from_millis(n as u64 * cfg.tick_ms));
+                    let mut v: Vec<(u8, u32)> = it.map(|r| (r.key().k, r.value().id)).collect();
+                    v.sort();
+                    Obs::Items(v)
                 }
             },
         };
@@ -511,6 +530,9 @@ pub fn alphabet(cfg: &Cfg) -> Vec<Op> {
                 if cfg.has_expiry() {
                     a.push(Op::Adv(2));
                 }
+                if cfg.has_expiry() && cfg.a >= 2 {
+                    a.push(Op::IterAdv(2));
+                }
             }
             if s && !cfg.autosync {
                 a.push(Op::Sync);
@@ -524,6 +546,8 @@ pub fn alphabet(cfg: &Cfg) -> Vec<Op> {
             a.push(Op::Iter);
             a.push(Op::Adv(1));
             a.push(Op::Adv(2));
+            // the clock moves while an iterator is alive
+            a.push(Op::IterAdv(2));
             // arms the invalidate_all watermark, which shares code with the expiry checks
             a.push(Op::InvAll);
             if s && !cfg.autosync {
@@ -534,6 +558,7 @@ pub fn alphabet(cfg: &Cfg) -> Vec<Op> {
         "inval" => {
             ins(&mut a, n);
             per_key(&mut a, Op::Get, n);
+            per_key(&mut a, Op::Con, n.min(2));
             a.push(Op::Iter);
             per_key(&mut a, Op::Inv, n);
             a.push(Op::InvAll);
